@@ -27,8 +27,9 @@ type Operand struct {
 	Assignable bool   `json:"assignable"`
 }
 type OpUse struct {
-	Op   string  `json:"op"`
-	L, R Operand `json:"l"`
+	Op string  `json:"op"`
+	L  Operand `json:"l"`
+	R  Operand `json:"r"`
 }
 type OpCase struct {
 	Overloads []Overload `json:"overloads"`
